@@ -11,7 +11,10 @@ for c in $(git cherry main "ws-$ID" | awk '$1=="+"{print $2}'); do
   if git log --format=%s main | grep -Fxq "$(git log --format=%s -n1 $c)"; then continue; fi
   echo "cherry-pick $(git log --oneline -n1 $c)"
   if ! git cherry-pick "$c" >/dev/null 2>&1; then
-    if [ "$(git status --short | grep '^U' | awk '{print $2}')" = "src/verif_hooks.rs" ]; then
+    if [ -z "$(git status --porcelain)" ]; then
+      # the change is already on main (empty cherry-pick)
+      git cherry-pick --skip >/dev/null 2>&1; echo "  (already applied)"; continue
+    elif [ "$(git status --short | grep '^U' | awk '{print $2}')" = "src/verif_hooks.rs" ]; then
       # every builder appends to the hook module: keep ours and append what this commit added
       git checkout --ours src/verif_hooks.rs
       git diff "$c~1" "$c" -- src/verif_hooks.rs | grep '^+' | grep -v '^+++' | sed 's/^+//' >> src/verif_hooks.rs
